@@ -3,7 +3,7 @@
    Proofs/ or Props/, so the correspondence check and the search still run when a proof no longer checks. *)
 Require Import Tables Parser Render Decode Driver Api PgModel.
 Require Lex.
-Require Import Shape Build Printer Scope Count Guard DecodedShape QuerySem SqlSem Probes Cst Inferable SameKind SqlFrag SqlFragP.
+Require Import Shape Build Printer Scope Count Guard DecodedShape QuerySem SqlSem Probes Cst Inferable SameKind SqlFrag SqlFragP Escape.
 Require Extraction.
 Require Import ExtrOcamlBasic ExtrOcamlString.
 Extraction Blacklist List String Lex Parser Printf.
@@ -23,4 +23,4 @@ Extraction "model.ml"
   PgModel.pg_lex PgModel.pg_parse PgModel.pg_read
   Shape.wf Printer.pr Printer.want Scope.scope Scope.clean Count.qcnt Guard.gok DecodedShape.dsh
   QuerySem.qsem QuerySem.leaf_const QuerySem.q_of_float_bits QuerySem.field_of QuerySem.is_star QuerySem.wild_match
-  SqlSem.ssem SqlSem.sim_match SqlSem.q_of_decimal Probes.num_probes Probes.q_lt Probes.q_eq Cst.cst_e Inferable.ki_b SameKind.sk_e SqlFrag.tr SqlFrag.side SqlFrag.text_ok SqlFrag.names_ok SqlFragP.trp SqlFragP.number_placeholders.
+  SqlSem.ssem SqlSem.sim_match SqlSem.q_of_decimal Probes.num_probes Probes.q_lt Probes.q_eq Cst.cst_e Inferable.ki_b SameKind.sk_e SqlFrag.tr SqlFrag.side SqlFrag.text_ok SqlFrag.names_ok SqlFragP.trp SqlFragP.number_placeholders Escape.esc.
